@@ -393,10 +393,20 @@ type codeBlock struct {
 	labels         map[string]*gotoLabelDesc
 	firstGotoIndex int
 	dbgLocals      []int // positions in Proto.DbgLocals of the locals declared in this block
+	// jumps out of the scope of locals of this block, emitted while none of them was
+	// captured yet: a closure further down in the block may still capture one
+	lateCloses []lateClose
+}
+
+// lateClose is the OP_NOP placeholder in front of such a jump and the first register it
+// has to close if the block turns out to have captured locals.
+type lateClose struct {
+	pc  int
+	reg int
 }
 
 func newCodeBlock(localvars *varNamePool, blabel int, parent *codeBlock, pos ast.PositionHolder, firstGotoIndex int) *codeBlock {
-	bl := &codeBlock{localvars, blabel, parent, false, 0, 0, map[string]*gotoLabelDesc{}, firstGotoIndex, nil}
+	bl := &codeBlock{localvars, blabel, parent, false, 0, 0, map[string]*gotoLabelDesc{}, firstGotoIndex, nil, nil}
 	if pos != nil {
 		bl.LineStart = pos.Line()
 		bl.LastLine = pos.LastLine()
@@ -517,9 +527,13 @@ func (fc *funcContext) ResolveGoto(from, to *gotoLabelDesc, index int) {
 func (fc *funcContext) FindLabel(block *codeBlock, gotoLabel *gotoLabelDesc, i int) bool {
 	target := block.GetLabel(gotoLabel.Name)
 	if target != nil {
-		if gotoLabel.NumActiveLocalVars > target.NumActiveLocalVars && block.RefUpvalue {
-			fc.Code.SetOpCode(gotoLabel.Pc-1, OP_CLOSE)
-			fc.Code.SetA(gotoLabel.Pc-1, target.NumActiveLocalVars)
+		if gotoLabel.NumActiveLocalVars > target.NumActiveLocalVars {
+			if block.RefUpvalue {
+				fc.Code.SetOpCode(gotoLabel.Pc-1, OP_CLOSE)
+				fc.Code.SetA(gotoLabel.Pc-1, target.NumActiveLocalVars)
+			} else {
+				block.lateCloses = append(block.lateCloses, lateClose{gotoLabel.Pc - 1, target.NumActiveLocalVars})
+			}
 		}
 		fc.ResolveGoto(gotoLabel, target, i)
 		return true
@@ -637,7 +651,20 @@ func (fc *funcContext) CloseUpvalues() int {
 	return n
 }
 
+// ResolveLateCloses turns the placeholders of the jumps that left the scope of this
+// block's locals into OP_CLOSE once it is known that one of the locals is captured.
+func (fc *funcContext) ResolveLateCloses() {
+	if !fc.Block.RefUpvalue {
+		return
+	}
+	for _, lc := range fc.Block.lateCloses {
+		fc.Code.SetOpCode(lc.pc, OP_CLOSE)
+		fc.Code.SetA(lc.pc, lc.reg)
+	}
+}
+
 func (fc *funcContext) LeaveBlock() int {
+	fc.ResolveLateCloses()
 	closed := fc.CloseUpvalues()
 	fc.EndScope()
 
@@ -1103,6 +1130,14 @@ func compileBreakStmt(context *funcContext, stmt *ast.BreakStmt) { // {{{
 		if label := block.BreakLabel; label != labelNoJump {
 			if refUpvalue {
 				context.Code.AddABC(OP_CLOSE, block.Parent.LocalVars.LastIndex(), 0, 0, sline(stmt))
+			} else {
+				// placeholder: becomes OP_CLOSE if a local of one of the blocks the break
+				// leaves is captured by a closure further down
+				context.Code.AddABC(OP_NOP, 0, 0, 0, sline(stmt))
+				lc := lateClose{context.Code.LastPC(), block.Parent.LocalVars.LastIndex()}
+				for b := context.Block; b != block.Parent; b = b.Parent {
+					b.lateCloses = append(b.lateCloses, lc)
+				}
 			}
 			context.Code.AddASbx(OP_JMP, 0, label, sline(stmt))
 			return
@@ -1418,6 +1453,7 @@ func compileFunctionExpr(context *funcContext, funcexpr *ast.FunctionExpr, ec *e
 	compileChunk(context, funcexpr.Stmts, false)
 
 	context.Code.AddABC(OP_RETURN, 0, 1, 0, eline(funcexpr))
+	context.ResolveLateCloses()
 	context.EndScope()
 	context.CheckUnresolvedGoto()
 	context.Proto.Code = context.Code.List()
